@@ -432,8 +432,9 @@ class Gen:
             ks.append((r.random() < 0.4, ("col", q, c)))
         if r.random() < 0.2:
             e = self.num(st["cols"], 1)
-            if e[0] == "lit":
-                e = ("bin", "Add", ("col",) + r.choice([x for x in st["cols"] if not x[1].startswith("?")]), e)   # a constant is no sort key
+            if e[0] == "lit" or not expr_cols(e):
+                # a constant (literal or column-free expression, which the compiler folds) is no sort key
+                e = ("bin", "Add", ("col",) + r.choice([x for x in st["cols"] if not x[1].startswith("?")]), e)
             if e[0] == "neg":
                 # in a sort list a leading unary minus (even parenthesised) is the DIRECTION marker, not arithmetic
                 e = ("bin", "Sub", ("lit", 0), e[1])
